@@ -1194,17 +1194,14 @@ Proof.
     rewrite (adj_lookup_NoDup a v r Ha Hv). apply expr_eqb_spec. reflexivity.
 Qed.
 
-Lemma cs_eq_refl_lemma g t : WF g -> dosing_compartments g <> None -> cs_eq (g, t) (g, t) = Some true.
-Proof.
-  intros Hwf Hd. unfold cs_eq. rewrite (proj2 (expr_eqb_spec t t) eq_refl), (dod_eqb_refl g Hwf). cbn [negb].
-  destruct (dosing_compartments g) as [d|]; [|congruence]. f_equal.
-  apply (list_eqb_spec comp_eqb comp_eqb_spec). reflexivity.
-Qed.
+Lemma odosing_eqb_refl d : odosing_eqb d d = true.
+Proof. destruct d as [l|]; [|reflexivity]. apply (list_eqb_spec comp_eqb comp_eqb_spec). reflexivity. Qed.
 
-Lemma cs_eq_raises_lemma g t : WF g -> dosing_compartments g = None -> cs_eq (g, t) (g, t) = None.
+(* == is reflexive on every well-formed system, dosed or not (no guard since fix 876afb2) *)
+Lemma cs_eq_refl_lemma g t : WF g -> cs_eq (g, t) (g, t) = true.
 Proof.
-  intros Hwf Hd. unfold cs_eq. rewrite (proj2 (expr_eqb_spec t t) eq_refl), (dod_eqb_refl g Hwf). cbn [negb].
-  rewrite Hd. reflexivity.
+  intros Hwf. unfold cs_eq. rewrite (proj2 (expr_eqb_spec t t) eq_refl), (dod_eqb_refl g Hwf), odosing_eqb_refl.
+  reflexivity.
 Qed.
 
 Definition defined_b (r : env) (fi : finterp) (e : expr) : bool :=
@@ -1635,10 +1632,9 @@ Lemma dict_roundtrip_built_lemma ops t : from_dict (to_dict (build ops, t)) = So
 Proof. apply dict_roundtrip_lemma, build_WF. Qed.
 
 Lemma dict_roundtrip_eq_lemma g t :
-  WF g -> dosing_compartments g <> None ->
-  exists s', from_dict (to_dict (g, t)) = Some s' /\ cs_eq s' (g, t) = Some true.
+  WF g -> exists s', from_dict (to_dict (g, t)) = Some s' /\ cs_eq s' (g, t) = true.
 Proof.
-  intros Hwf Hd. exists (g, t). split; [apply dict_roundtrip_lemma, Hwf | apply cs_eq_refl_lemma; assumption].
+  intros Hwf. exists (g, t). split; [apply dict_roundtrip_lemma, Hwf | apply cs_eq_refl_lemma, Hwf].
 Qed.
 
 (* ================================================================================================ *)
